@@ -771,6 +771,23 @@ def _g1(ctx: Context) -> None:
             f"data_received: event_received is called on {show(recv, 60)} with {show(arg, 80)}",
             ctx.loc(f, n),
         )
+    # ---- a dispatched message is finished: the parser object is renewed before the next round / the return.  A complete
+    # response that stays in self.current_response (e.g. "nobody is waiting, ignore it and continue") is handed to the
+    # NEXT request, whose own answer then goes to the one after: every later request is off by one.
+    for e in handled_edges:
+        hn = cfg.nodes[e[0]]
+        stops = {cfg.exit.id} | _loop_heads(cfg, hn)
+        p = cfg.find_path(e[1], stops, avoid_nodes=renew) if e[1] not in renew else None
+        ck.check(
+            "C08.G1",
+            p is None,
+            "data_received: after a complete message was dispatched the response object is renewed on every path to the next round",
+            f"{ctx.fkey(f)}:message-not-consumed",
+            "data_received: a path leaves a complete message in self.current_response (no renewal before the next round / return): the "
+            "stale response is delivered to the next request, and each later request receives its predecessor's answer",
+            ctx.loc(f, hn),
+            cfg.render_path([(e[0], e[2], e[3])] + p) if p else None,
+        )
     # ---- anything else raises
     tests = sorted({e[0] for e, _ks in outcomes})
     for nid in tests:
@@ -1503,6 +1520,13 @@ MANIFEST = {
 TWIN_FILES = ["aiohomekit/controller/ip/connection.py"]
 _CF = "aiohomekit/controller/ip/connection.py"
 VARIANTS = [
+    {
+        "name": "unsolicited response ignored with `continue` (the response object is not renewed)",
+        "file": _CF,
+        "old": "                    next_callback = self.result_cbs.pop(0)\n",
+        "new": "                    if not self.result_cbs:\n                        continue\n                    next_callback = self.result_cbs.pop(0)\n",
+        "expect": "C08.G1",
+    },
     {
         "name": "pop() instead of pop(0) in data_received (LIFO)",
         "file": _CF,
